@@ -998,14 +998,21 @@ def pad(tensor, padding, value=0.0):
                 tn.eye(pad[1], device=cores[k].device, dtype=cores[k].dtype)
             value = 1
     else:
-        rprod = np.prod(tensor.R)
-        value = value/rprod
-
         cores = [c.clone() for c in tensor.cores]
         for pad, k in zip(reversed(padding), reversed(range(len(tensor.N)))):
             cores[k] = tnf.pad(
-                cores[k], (0, 0, pad[0], pad[1], 0, 0), value=value)
-            value = 1 if value != 0 else 0
+                cores[k], (0, 0, pad[0], pad[1], 0, 0), value=0)
+
+        if value != 0:
+            # add the constant on the padded entries only: value * (ones - zero padded ones)
+            one_cores = [tn.ones((1, n, 1), dtype=c.dtype, device=c.device)
+                         for n, c in zip(tensor.N, cores)]
+            for pad, k in zip(reversed(padding), reversed(range(len(tensor.N)))):
+                one_cores[k] = tnf.pad(
+                    one_cores[k], (0, 0, pad[0], pad[1], 0, 0), value=0)
+            outside = torchtt._tt_base.TT([tn.ones_like(c) for c in one_cores]) - \
+                torchtt._tt_base.TT(one_cores)
+            return torchtt._tt_base.TT(cores) + value * outside
 
     return torchtt._tt_base.TT(cores)
 
